@@ -61,10 +61,10 @@ func indexDirection(idx ssa.Value) string {
 
 func constIntOf(v ssa.Value) (int64, bool) {
 	c, ok := v.(*ssa.Const)
-	if !ok || c.Value == nil {
+	if !ok || c.Value == nil || c.Value.Kind().String() != "Int" {
 		return 0, false
 	}
-	return c.Int64(), c.Value.Kind().String() == "Int"
+	return c.Int64(), true
 }
 
 func phiStartsAt(p *ssa.Phi, k int64) bool {
